@@ -920,40 +920,17 @@ func guardVariable(pk *packages.Package, body *ast.BlockStmt, site ast.Node, sta
 // keys of the directiveFunctions literal, propagated along calls that pass the caller's own directive parameter on.
 func (c *Ctx) handlerKinds() map[*types.Func]map[string]bool {
 	out := map[*types.Func]map[string]bool{}
-	ctor := c.fn("core", "NewJApiCore")
-	if ctor == nil {
+	corePk := c.P.Pkg("core")
+	if corePk == nil {
 		return out
 	}
-	pk := ctor.Pkg
-	df := c.coreField("directiveFunctions")
-	ast.Inspect(ctor.Decl.Body, func(n ast.Node) bool {
-		as, ok := n.(*ast.AssignStmt)
-		if !ok || len(as.Lhs) != 1 || fieldSel(pk, as.Lhs[0]) != df || df == nil {
-			return true
+	pk := corePk
+	for kind, m := range c.dispatchTable() {
+		if out[m] == nil {
+			out[m] = map[string]bool{}
 		}
-		cl, ok := ast.Unparen(as.Rhs[0]).(*ast.CompositeLit)
-		if !ok {
-			return true
-		}
-		for _, el := range cl.Elts {
-			kv, ok := el.(*ast.KeyValueExpr)
-			if !ok {
-				continue
-			}
-			k := constObj(pk, kv.Key)
-			sel, ok := ast.Unparen(kv.Value).(*ast.SelectorExpr)
-			if k == nil || !ok {
-				continue
-			}
-			if m, ok := pk.TypesInfo.Uses[sel.Sel].(*types.Func); ok {
-				if out[m] == nil {
-					out[m] = map[string]bool{}
-				}
-				out[m][k.Name()] = true
-			}
-		}
-		return true
-	})
+		out[m][kind] = true
+	}
 	// propagate: g(d) called from f with f's own directive parameter (possibly guarded by a switch on d.Parent.Type(): ignored, kinds are f's)
 	changed := true
 	for changed {
